@@ -48,6 +48,18 @@ int64_t const HttpHdrRangeSpec::UnknownPosition = -1;
  * Range-Spec
  */
 
+/// parses a first-byte-pos, last-byte-pos, or suffix-length (i.e. 1*DIGIT)
+/// that occupies the whole [start, end) area
+static bool
+ParseRangePos(const char * const start, const char * const end, int64_t &value)
+{
+    if (start >= end || !xisdigit(*start))
+        return false; // strtoll() would skip leading whitespace and a sign
+
+    char *parsedEnd = nullptr;
+    return httpHeaderParseOffset(start, &value, &parsedEnd) && parsedEnd == end;
+}
+
 HttpHdrRangeSpec::HttpHdrRangeSpec() : offset(UnknownPosition), length(UnknownPosition) {}
 
 /* parses range-spec and returns new object on success */
@@ -72,7 +84,7 @@ HttpHdrRangeSpec::parseInit(const char *field, int flen)
 
     /* is it a suffix-byte-range-spec ? */
     if (*field == '-') {
-        if (!httpHeaderParseOffset(field + 1, &length) || !known_spec(length))
+        if (!ParseRangePos(field + 1, field + flen, length) || !known_spec(length))
             return false;
     } else
         /* must have a '-' somewhere in _this_ field */
@@ -80,7 +92,7 @@ HttpHdrRangeSpec::parseInit(const char *field, int flen)
             debugs(64, 2, "invalid (missing '-') range-spec near: '" << field << "'");
             return false;
         } else {
-            if (!httpHeaderParseOffset(field, &offset) || !known_spec(offset))
+            if (!ParseRangePos(field, p, offset) || !known_spec(offset))
                 return false;
 
             ++p;
@@ -89,7 +101,7 @@ HttpHdrRangeSpec::parseInit(const char *field, int flen)
             if (p - field < flen) {
                 int64_t last_pos;
 
-                if (!httpHeaderParseOffset(p, &last_pos) || !known_spec(last_pos))
+                if (!ParseRangePos(p, field + flen, last_pos) || !known_spec(last_pos))
                     return false;
 
                 // RFC 2616 s14.35.1 MUST: last-byte-pos >= first-byte-pos
